@@ -23,6 +23,7 @@ type ShutCfg struct {
 	ShutAt  string // "" = from the start; "written" = after every client has written what it writes
 	Shutters int   // number of threads calling Shutdown concurrently (0 = 1)
 	CloseErr bool  // the listener's Close reports an error (it is closed all the same)
+	SameAddr bool  // all connections report the same remote address (unix socket, in-memory listener)
 }
 
 type shutWorld struct {
@@ -136,6 +137,7 @@ func shutdownScenario(cfg ShutCfg) func() {
 	return func() {
 		resetPackages()
 		w := &shutWorld{cfg: cfg, lis: &Listener{Cap: cfg.PipeCap}, gate: mc.MakeChan[struct{}](0)}
+		w.lis.SameAddr = cfg.SameAddr
 		if cfg.CloseErr {
 			w.lis.CloseErr = errors.New("close: cannot remove the socket")
 		}
@@ -263,5 +265,6 @@ func init() {
 	sd("shut-pipelined", "Shutdown at any time vs a connection that pipelined two requests: the first handler runs until cancelled while the second request is already read", ShutCfg{Hook: "ok", Phases: []string{"pipelined"}})
 	sd("shut-stubborn", "Shutdown at any time vs a handler that ignores cancellation and ends only when an external gate opens (at any time): Shutdown returns only after it has ended", ShutCfg{Hook: "ok", Phases: []string{"stubborn"}})
 	sd("shut-2conn", "Shutdown at any time vs two connections (fast handler, slow handler)", ShutCfg{Hook: "ok", Phases: []string{"fast", "slow"}})
+	sd("shut-2conn-sameaddr", "Shutdown at any time vs two connections (fast handler, idle) that report the same remote address, as the clients of a unix socket do; hooks installed", ShutCfg{Hook: "ok", SameAddr: true, Phases: []string{"fast", "idle"}})
 	sd("shut-2conn-idle-fast", "Shutdown at any time vs two connections (idle, fast)", ShutCfg{Phases: []string{"idle", "fast"}})
 }
